@@ -66,7 +66,7 @@ def install(reg):
     reg.always_truthy = set(getattr(reg, 'always_truthy', ()))
     reg.trusted.append('Dyn mode (pyvc/dyn.py): values irrelevant to the contract are abstract; tests on them are explored both ways; untracked calls are assumed to have no tracked effect and not to raise')
     def binop_hook(eng, st, op, a, b, node):
-        if a.t == DYN or b.t == DYN or isinstance(a.t, (PyTupT, RecT, IterT)) or isinstance(b.t, (PyTupT, RecT, IterT)) or a.ref is not None or b.ref is not None:
+        if a.t == DYN or b.t == DYN or a.t == MOD or b.t == MOD or isinstance(a.t, (PyTupT, RecT, IterT)) or isinstance(b.t, (PyTupT, RecT, IterT)) or a.ref is not None or b.ref is not None:
             return [(st, fresh('bin'))]
         return None
     def compare_hook(eng, st, op, a, b, node):
